@@ -144,6 +144,21 @@ func isNum(v reflect.Value) bool {
 	return false
 }
 
+// plainNum returns the number held by v as a value of its basic type, so that
+// formatting it never calls a String/Error/Format method of a named numeric type.
+func plainNum(v reflect.Value) interface{} {
+	switch v.Kind() {
+	case reflect.Int, reflect.Int8, reflect.Int16, reflect.Int32, reflect.Int64:
+		return v.Int()
+	case reflect.Uint, reflect.Uint8, reflect.Uint16, reflect.Uint32, reflect.Uint64, reflect.Uintptr:
+		return v.Uint()
+	case reflect.Float32:
+		return float32(v.Float())
+	default:
+		return v.Float()
+	}
+}
+
 func isFunc(v reflect.Value) bool {
 	if v.Kind() == reflect.Func {
 		return true
@@ -194,7 +209,7 @@ func equal(lhsV, rhsV reflect.Value) bool {
 	}
 
 	if isNum(lhsV) && isNum(rhsV) {
-		return fmt.Sprintf("%v", lhsV) == fmt.Sprintf("%v", rhsV)
+		return fmt.Sprintf("%v", plainNum(lhsV)) == fmt.Sprintf("%v", plainNum(rhsV))
 	}
 
 	if r, done := boolEquals(lhsV, rhsV); done {
